@@ -336,6 +336,7 @@ class Shape:
         self.payload = kw.get('payload', 'mixed')  # none | all | mixed
         self.super_data = kw.get('super_data', False)
         self.cross_kind = kw.get('cross_kind', False)   # a guard also used as an unless-condition (K1 only: one hook, two roles)
+        self.pl_ty = kw.get('pl_ty', 'P')               # spelling of the payload type (K1 only: `C`, `()`, a reference)
         self.ctx_ty = kw.get('ctx_ty', 'Ctx')           # spelling of the concrete context type (K1 only: `()`, `u8`, a path)
         self.hook_event = kw.get('hook_event', False)   # a hook named like an event of the machine (K1 only: with hooks in the
                                                         # blanket impl rustc rejects the clash; the expansion must not care)
@@ -427,7 +428,7 @@ def gen_wellformed(rnd, shape, idx=0):
         has_pl = shape.payload == 'all' or (shape.payload == 'mixed' and rnd.random() < 0.5)
         es = []
         if has_pl:
-            es.append(('payload', 'P'))
+            es.append(('payload', shape.pl_ty))
 
         ev_level = {}
 
